@@ -171,7 +171,9 @@ def r18_6(ctx):
 @rule("R18.7", min_instances=8, desc="what is pickled is complete and fresh: guesses given after transcription are recorded in the declaration (shared with C10); each save/load uses its own serializer")
 def r18_7(ctx):
     from .c10 import r10_5
+    from .c13 import r13_8
     r10_5(ctx)
+    r13_8(ctx)   # applying guesses / values to a live transcription never edits the declared tables that save() pickles
     P = ctx.prog
     for name, cls in (("rockit_pickle_context", "StringSerializer"), ("rockit_unpickle_context", "StringSerializer")):
         f = P.function("casadi_helpers", name)
